@@ -108,6 +108,10 @@ def s1(ck, an):
 
 def kind_of(an, fa, e) -> str:
     """int | float | int*float ... for a null-action expression."""
+    if isinstance(e, ast.Name):
+        e2, _ = deref(fa, e)          # a temporary stands for the expression it was assigned
+        if e2 is not e:
+            return kind_of(an, fa, e2)
     if isinstance(e, ast.Constant):
         if isinstance(e.value, bool):
             return "bool"
